@@ -6,7 +6,7 @@ CONSTANTS
   AliasInput = FALSE
   LeakyObserver = FALSE
   AliasResult = FALSE
-  AliasArg = FALSE
+  AliasArg = TRUE
 INVARIANT Independent
 INVARIANT Deterministic
 INVARIANT FreshDefaults
